@@ -55,6 +55,45 @@ partial def treeDepth : OptionText.Opt → Nat
 
 def joinLines (ls : List String) : String := toHexW (stringToBytes ("\n".intercalate ls ++ "\n"))
 
+/-- Tokeniser for the text the option printer emits (used to tie `OptionText.valueToks`, the
+subject of `C05_option_inv`, to the rendered lines on every op of the `print.opt` stream). -/
+partial def tokenize (cs : List Char) (acc : List OptionText.Tok) : List OptionText.Tok :=
+  match cs with
+  | [] => acc.reverse
+  | c :: rest =>
+    if c == ' ' || c == '\n' then tokenize rest acc
+    else if c == '{' then tokenize rest (.lbrace :: acc)
+    else if c == '}' then tokenize rest (.rbrace :: acc)
+    else if c == '[' then tokenize rest (.lbrack :: acc)
+    else if c == ']' then tokenize rest (.rbrack :: acc)
+    else if c == ',' then tokenize rest (.comma :: acc)
+    else if c == ':' then tokenize rest (.colon :: acc)
+    else if c == '"' then
+      let rec str (cs : List Char) (w : List Char) : List Char × List Char :=
+        match cs with
+        | [] => (w.reverse, [])
+        | '\\' :: x :: t => str t (x :: '\\' :: w)
+        | '"' :: t => (('"' :: w).reverse, t)
+        | x :: t => str t (x :: w)
+      let (w, t) := str rest ['"']
+      tokenize t (.scalar (String.ofList w) :: acc)
+    else
+      let isDelim (x : Char) : Bool := x == ' ' || x == '\n' || x == '{' || x == '}' || x == '[' || x == ']' || x == ',' || x == ':'
+      let w := (c :: rest).takeWhile (fun x => !isDelim x)
+      let t := (c :: rest).dropWhile (fun x => !isDelim x)
+      match t with
+      | ':' :: _ => tokenize t (.ident (String.ofList w) :: acc)
+      | _ => tokenize t (.scalar (String.ofList w) :: acc)
+
+/-- the rendered statement carries exactly the tokens of `valueToks` -/
+def stmtTokensOk (name : String) (lines : List String) (root : OptionText.Opt) : Bool :=
+  let text := "\n".intercalate (lines.map fun l => l.trimAscii.toString)
+  let pre := "option " ++ name ++ " = "
+  if text.startsWith pre && text.endsWith ";" then
+    let body := ((text.drop pre.length).toString.dropEnd 1).toString
+    tokenize body.toList [] == OptionText.valueToks root
+  else false
+
 def parseElem (s : String) : Option Order.Elem :=
   match (s.splitOn ",").map String.toNat? with
   | [some t, some l, some i] => some ⟨t, l, i⟩
@@ -118,7 +157,9 @@ def step (line : String) : String :=
     match hexStr full, hexStr rel, parseTree tree with
     | some full, some rel, some (t, []) =>
       let (sub, root) := OptionText.simplified full t (treeDepth t)
-      joinLines (OptionText.optionStmt 0 (OptionText.optionName rel sub) (single == "1") root)
+      let name := OptionText.optionName rel sub
+      let lines := OptionText.optionStmt 0 name (single == "1") root
+      if stmtTokensOk name lines root then joinLines lines else "model-inconsistent-tokens"
     | _, _, _ => "bad-op"
   | "optfield" :: head :: number :: _bytes :: fname :: json :: n :: rest =>
     match hexStr head, hexStr fname, fromHex json, n.toNat? with
